@@ -386,6 +386,44 @@ def run_class(shape_i: int, sub_i: int) -> Tuple[bool, bool]:
     return ok, witness
 
 
+def run_abstract(via_dbc: bool, member: int, sub_overrides: bool) -> Tuple[bool, bool]:
+    """A class with an invariant and an abstract method / property: abstractness is preserved (flag, __abstractmethods__
+    of subclasses, instantiability of an incomplete subclass)."""
+    via_dbc = True if via_dbc else False
+    member = conc(member, 0, 1)
+    sub_overrides = True if sub_overrides else False
+    with untraced():
+        def make(decorate: bool) -> Tuple[Any, ...]:
+            bases = (icontract.DBC,) if (via_dbc and decorate) else (abc.ABC,)
+            meta = type(bases[0])
+
+            def area(self: Any) -> Any:
+                raise NotImplementedError
+            ns = {}  # type: Dict[str, Any]
+            if member == 0:
+                ns["area"] = abc.abstractmethod(area)
+            else:
+                ns["area"] = property(abc.abstractmethod(area))
+            base = meta("Shape", bases, ns)
+            if decorate:
+                base = icontract.invariant(lambda self: True)(base)
+            sub_ns = {}  # type: Dict[str, Any]
+            if sub_overrides:
+                sub_ns["area"] = (lambda self: 1) if member == 0 else property(lambda self: 1)
+            sub = meta("Partial", (base,), sub_ns)
+            flag = getattr(base.__dict__["area"] if member == 1 else base.area, "__isabstractmethod__", False)
+            try:
+                sub()
+                inst = "instantiable"
+            except TypeError:
+                inst = "abstract"
+            return (bool(flag), inspect.isabstract(sub), sorted(sub.__abstractmethods__), inst)
+        want, got = make(False), make(True)
+        ok = want == got
+    note(("abstract", via_dbc, member, sub_overrides, got), True)
+    return ok, True
+
+
 SALL = ["flavour", "d0", "d1", "d2", "d3", "d4", "d5", "bo", "t0", "t1", "t2", "t3", "t4", "t5", "x"]
 
 
@@ -407,6 +445,11 @@ def harnesses(tier: str) -> List[H]:
                          family="{}: every sequence of {} decorators from {} (innermost: {}); truth of every contract and 3 "
                                 "body outcomes symbolic; metadata, signature, __wrapped__ chain and single-checker checked "
                                 "once per sequence".format(fname, depth, SYM, SYM[d0]), family_size=5 ** (depth - 1)))
+    AP = ["via_dbc", "member", "sub_overrides"]
+    out.append(H("abstract_members", bind(run_abstract, (), AP, {}, AP), [B("via_dbc"), I("member", 0, 1), B("sub_overrides")],
+                 tiers=(tier,), timeout=200,
+                 family="class (ABC or DBC) with an invariant and an abstract method / abstract property; subclass overriding "
+                        "it or not; compared with the undecorated twin", family_size=8))
     params = [I("shape_i", 0, len(CLASS_SHAPES) - 1), I("sub_i", 0, len(SUB_SHAPES) - 1)]
     out.append(H("classes", bind(run_class, (), ["shape_i", "sub_i"], {}, ["shape_i", "sub_i"]), params, tiers=(tier,),
                  timeout=300,
